@@ -409,7 +409,10 @@ def _kf_null_dups(family, case, disc):
 @known.finding("C02/flat-index-schema-on-multiindex-lazy-raises-SchemaError")
 def _kf_mismatch_index(family, case, disc):
     ixs, ixt = case["spec"].get("index"), case["table"].get("index")
-    return (disc.kind == "lazy-raised-not-SchemaErrors" and case["spec"].get("kind") == "series" and ixs is not None
+    d = disc.detail if isinstance(disc.detail, dict) else {}
+    symptom = disc.kind == "lazy-raised-not-SchemaErrors" or (
+        disc.kind.startswith("wrong-error-class:") and d.get("lazy") == "SchemaError" and d.get("eager") == "SchemaError")
+    return (symptom and case["spec"].get("kind") == "series" and ixs is not None
             and "multi" not in ixs and ixt is not None and "multi" in ixt)
 
 
